@@ -6,12 +6,20 @@
  *
  * usage: c01_queue <nrandom> <seed> <shard> <nshards>   |   c01_queue -   (cases on stdin)
  * stdin case:  <chunk> <msghex> <envhex> <faultcall> <faulterr> [<faultcall2> <faulterr2> ...]   (up to 4 faults, ascending call numbers)
+ *   faulterr > 0: errno; -1: short write; -3: the clock jumps 100000 s ahead before that call, so the pending
+ *   alarm(DEATH) fires there (SIGALRM -> sigalrm()).
+ *   faultcall == 0 with faulterr >= -1: no fault.  faultcall == 0 with faulterr <= -10: a failure of something qsim does
+ *   not trace: -11..-16 the k-th alloc() of qmail-queue.c returns 0 (k = -err-10: 1 received_setup, 2 pidopen, 3..5 fnnum;
+ *   6 never happens); -22..-26 SIGBUS is delivered at the k-th alloc() (k = -err-20; sigbug()); -31 /var/qmail does not
+ *   exist (chdir(auto_qmail) fails); -32 /var/qmail/queue does not exist (chdir("queue") fails).
+ * uid (one of: ordinary user, alias, qmaild, qmails - the four forms of the Received line), pid and the time of day are
+ * derived from the input bytes, so that a replayed case is the same case.
  *
  * output per case:
- *   CASE chunk=<n> msg=<hex> env=<hex> fault=<callno>:<err>[+<callno2>:<err2>...] received=<hex> uid=<u> pid=<p>
+ *   CASE chunk=<n> msg=<hex> env=<hex> fault=<callno>:<err>[+<callno2>:<err2>...] received=<hex> uid=<u> pid=<p> clock=<t>
  *   T <event> ...                      one per interposed call (see sim.c), write data in hex
  *   EXIT <code> ncalls=<n> faultfired=<0|1>
- *   S <k> <mode> <code> [mess=<len>:<hash> todo=<len>:<hash>]
+ *   S <k> <mode> <code> [mess=<len>:<hash> todo=<len>:<hash> named=<0|1> linked=<0|1>]   (linked: intd/<n> and todo/<n> are one inode)
  *        state after a world crash before call k (k = ncalls+1: after exit) resolved by <mode>:
  *        code = subset of letters p(pid file) m(mess) i(intd) t(todo); contents given when t present
  *        (fault-sweep cases whose fault-free run is emitted as a case of its own report only the crash points
@@ -24,17 +32,37 @@
  */
 #define _GNU_SOURCE
 #include "sim.h"
+#include <signal.h>
 #include "auto_split.h"
 SIM_INSTANCE(qq)
 extern char *received; extern unsigned int receivedlen;    /* globals of qmail-queue.c */
 
-#define QUID 1000
-#define QPID 4242
+static uint64_t fnv(const unsigned char *p, size_t n);
+
+/* per-case identity of the process and failures of untraced library calls (see the header) */
+static long g_uid, g_pid, g_clock;
+static int g_setup;               /* 0, or the faulterr <= -10 of a fault with call 0 */
+static int g_nalloc;              /* alloc() calls of qmail-queue.c so far in this run */
+static const long uids[4] = { 1000, 7790 /* alias */, 7791 /* qmaild */, 7796 /* qmails */ };
+
+/* qmail-queue.c is compiled with -Dmalloc=qq_malloc (alloc.h: #define alloc(x) malloc(x)), nothing else is */
+void *qq_malloc(size_t n) {
+  int k = ++g_nalloc;
+  if (sim_on && g_setup == -10 - k) return 0;
+  if (sim_on && g_setup == -20 - k) sim_deliver_signal(sim_cur, SIGBUS);
+  return malloc(n);
+}
 
 static void world(const unsigned char *msg, size_t mn, const unsigned char *env, size_t en, int chunk) {
   char b[64];
   sim_reset();
   sim_globals_restore();
+  g_nalloc = 0;
+  { uint64_t h = fnv(msg, mn) ^ (fnv(env, en) * 0x9e3779b97f4a7c15ull);
+    g_uid = uids[h & 3]; g_pid = 1 + (long)((h >> 8) % 99999); g_clock = (long)((h >> 24) % 4102444800ull); }
+  W.clock = g_clock;
+  if (g_setup == -31) return (void)sim_proc(0, "qmail-queue", g_pid, g_uid, "/");            /* no /var/qmail */
+  if (g_setup == -32) { sim_mkdir_p("/var/qmail", 0, 0755); sim_proc(0, "qmail-queue", g_pid, g_uid, "/"); return; }   /* no queue */
   sim_user("alias", 7790, 2108); sim_user("qmaild", 7791, 2108); sim_user("qmails", 7796, 2107);
   sim_user("qmailq", 7794, 2107); sim_user("qmailr", 7795, 2107); sim_user("qmaill", 7792, 2108); sim_user("qmailp", 7793, 2108);
   sim_mkdir_p("/var/qmail/queue/pid", 7794, 0700);
@@ -44,7 +72,7 @@ static void world(const unsigned char *msg, size_t mn, const unsigned char *env,
   for (int i = 0; i < auto_split; i++) { snprintf(b, sizeof b, "/var/qmail/queue/mess/%d", i); sim_mkdir_p(b, 7794, 0750); }
   int f = sim_mkfifo_("/var/qmail/queue/lock/trigger", 7796, 0622);
   W.ino[f].readers = 1;             /* the daemon has the trigger open */
-  simproc *p = sim_proc(0, "qmail-queue", QPID, QUID, "/");
+  simproc *p = sim_proc(0, "qmail-queue", g_pid, g_uid, "/");
   sim_fd_source(p, 0, msg, mn, chunk);
   sim_fd_source(p, 1, env, en, chunk);
   sim_fd_sink(p, 2);
@@ -58,13 +86,13 @@ static uint64_t fnv(const unsigned char *p, size_t n) {
 
 /* summarise the queue entry; the message number is the inode of whatever is in mess/ or pid/ */
 static void summarise(long k, int mode) {
-  char code[8]; int c = 0; int messino = -1, todoino = -1;
+  char code[8]; int c = 0; int messino = -1, todoino = -1, intdino = -1;
   for (int i = 0; i < W.ndent; i++) if (W.dent[i].ino >= 0) {
     const char *q = W.dent[i].path;
     if (W.ino[W.dent[i].ino].type != SI_FILE) continue;
     if (strstr(q, "/queue/pid/")) { if (!memchr(code, 'p', c)) code[c++] = 'p'; }
     else if (strstr(q, "/queue/mess/")) { code[c++] = 'm'; messino = W.dent[i].ino; }
-    else if (strstr(q, "/queue/intd/")) code[c++] = 'i';
+    else if (strstr(q, "/queue/intd/")) { code[c++] = 'i'; intdino = W.dent[i].ino; }
     else if (strstr(q, "/queue/todo/")) { code[c++] = 't'; todoino = W.dent[i].ino; }
   }
   /* canonical order p m i t */
@@ -77,7 +105,8 @@ static void summarise(long k, int mode) {
     snprintf(want, sizeof want, "/var/qmail/queue/todo/%d", messino); named_ok &= sim_lookup(want) == todoino;
     if (messino >= 0) fprintf(h_out, " mess=%zu:%016llx", W.ino[messino].cur.n, (unsigned long long)fnv(W.ino[messino].cur.p, W.ino[messino].cur.n));
     else fprintf(h_out, " mess=absent");
-    fprintf(h_out, " todo=%zu:%016llx named=%d", W.ino[todoino].cur.n, (unsigned long long)fnv(W.ino[todoino].cur.p, W.ino[todoino].cur.n), named_ok);
+    fprintf(h_out, " todo=%zu:%016llx named=%d linked=%d", W.ino[todoino].cur.n, (unsigned long long)fnv(W.ino[todoino].cur.p, W.ino[todoino].cur.n), named_ok,
+            intdino == todoino);
   }
   fputc('\n', h_out);
 }
@@ -85,14 +114,21 @@ static void summarise(long k, int mode) {
 typedef struct { int call, err; } flt;
 #define MAXF 4
 
+/* call before world(): which untraced failure this case has */
+static void set_setup(const flt *f, int nf) {
+  g_setup = 0;
+  for (int i = 0; i < nf; i++) if (f[i].call == 0 && f[i].err <= -10) g_setup = f[i].err;
+}
+/* call after world() (sim_reset clears the plan) */
 static void set_faults(const flt *f, int nf) {
-  for (int i = 0; i < nf; i++) { sim_faults[i].proc = 0; sim_faults[i].callno = f[i].call; sim_faults[i].err = f[i].err; }
-  sim_nfaults = nf;
+  int n = 0;
+  for (int i = 0; i < nf; i++) if (f[i].call > 0) { sim_faults[n].proc = 0; sim_faults[n].callno = f[i].call; sim_faults[n].err = f[i].err; n++; }
+  sim_nfaults = n;
 }
 
 /* number of calls the program makes on this input under these faults (nothing is printed) */
 static long ncalls_of(const unsigned char *msg, size_t mn, const unsigned char *env, size_t en, int chunk, const flt *f, int nf) {
-  world(msg, mn, env, en, chunk); set_faults(f, nf);
+  set_setup(f, nf); world(msg, mn, env, en, chunk); set_faults(f, nf);
   int save = sim_trace_on; sim_trace_on = 0; sim_run(&P[0], qq_main); sim_trace_on = save;
   return P[0].ncalls;
 }
@@ -103,6 +139,7 @@ static int sampled(long k, long ncalls) { return !(ncalls > 150 && k > 40 && k <
 /* one case: faults f[0..nf) (call == 0: unused slot); crash points kmin..ncalls+1 */
 static void one_f(const unsigned char *msg, size_t mn, const unsigned char *env, size_t en, int chunk, const flt *f, int nf, long kmin) {
   /* 1. the full run, traced */
+  set_setup(f, nf);
   world(msg, mn, env, en, chunk);
   set_faults(f, nf);
   sim_trace_on = 1;
@@ -113,8 +150,8 @@ static void one_f(const unsigned char *msg, size_t mn, const unsigned char *env,
   fprintf(h_out, " fault=");
   if (nf == 0) fprintf(h_out, "0:0");
   for (int i = 0; i < nf; i++) fprintf(h_out, "%s%d:%d", i ? "+" : "", f[i].call, f[i].err);
-  fprintf(h_out, " received="); h_hex((unsigned char *)received, receivedlen);
-  fprintf(h_out, " uid=%d pid=%d\n", QUID, QPID);
+  fprintf(h_out, " received="); if (received) h_hex((unsigned char *)received, receivedlen); else fprintf(h_out, "null");
+  fprintf(h_out, " uid=%ld pid=%ld clock=%ld\n", g_uid, g_pid, g_clock);
   /* trace lines */
   { char *s = (char *)sim_trace.p; size_t n = sim_trace.n, i = 0;
     while (i < n) { size_t j = i; while (j < n && s[j] != '\n') j++; fprintf(h_out, "T %.*s\n", (int)(j - i), s + i); i = j + 1; } }
@@ -229,6 +266,38 @@ static long sweep2(const unsigned char *msg, size_t mn, const unsigned char *env
   return id;
 }
 
+/* SIGALRM (fault kind -3: the clock jumps past alarm(DEATH) before the call) at every call index of the run */
+static long sweep_alarm(const unsigned char *msg, size_t mn, const unsigned char *env, size_t en, int chunk, long id, int shard, int nshards) {
+  long nc = ncalls_of(msg, mn, env, en, chunk, 0, 0);
+  for (long fc = 1; fc <= nc; fc++, id++) {
+    if (!sampled(fc, nc)) continue;
+    if ((int)(id % nshards) != shard) continue;
+    flt f = { (int)fc, -3 };
+    one_f(msg, mn, env, en, chunk, &f, 1, fc);
+  }
+  return id;
+}
+
+/* a first fault (EIO or a short write, at every index), then SIGALRM at every later index: the alarm also arrives
+ * between and after the calls of cleanup() */
+static long sweep_alarm2(const unsigned char *msg, size_t mn, const unsigned char *env, size_t en, int chunk, long id, int shard, int nshards) {
+  long nc = ncalls_of(msg, mn, env, en, chunk, 0, 0);
+  for (long fc1 = 1; fc1 <= nc; fc1++) {
+    if (!sampled(fc1, nc)) continue;
+    for (int fe1 = 0; fe1 < 2; fe1++) {
+      flt f[2] = { { (int)fc1, fe1 ? -1 : EIO }, { 0, 0 } };
+      long nc1 = ncalls_of(msg, mn, env, en, chunk, f, 1);
+      for (long fc2 = fc1 + 1; fc2 <= nc1; fc2++, id++) {
+        if (!sampled(fc2, nc1)) continue;
+        if ((int)(id % nshards) != shard) continue;
+        f[1].call = (int)fc2; f[1].err = -3;
+        one_f(msg, mn, env, en, chunk, f, 2, fc2);
+      }
+    }
+  }
+  return id;
+}
+
 /* the inputs of the malformed-input sweeps: shape x variant (0: tiny message, few recipients, unchunked;
  * 1: 300-byte message, 30..49 recipients (the envelope file is written in several pieces), reads of 100;
  * 2: tiny message, reads of 1 byte (255 for the over-long addresses)) */
@@ -299,7 +368,7 @@ int main(int argc, char **argv) {
     size_t en = gen_env(env, 2, -2, -2, 0, -1, 0);
     int chunk = base == 1 ? 100 : 0;
     /* number of calls of the clean run */
-    world(msg, mn, env, en, chunk); sim_trace_on = 0; sim_run(&P[0], qq_main); int nc = P[0].ncalls; sim_trace_on = 1;
+    int nc = (int)ncalls_of(msg, mn, env, en, chunk, 0, 0);
     for (int fc = 1; fc <= nc; fc++) for (int fe = 0; fe < 4; fe++, id++) { if ((int)(id % nshards) != shard) continue; one(msg, mn, env, en, chunk, fc, ferrs[fe]); }
   }
   /* (D) random */
@@ -358,6 +427,48 @@ int main(int argc, char **argv) {
     }
     one_f(msg, mn, env, en, chunk, f, nf, 1);
   }
+  /* (H) SIGALRM at every call index (sampled in the middle of traces > 150 calls): the three well-formed bases of (C),
+   *     every malformed shape x the variants 0 and 1; then after a first fault, on base 0 and on the small malformed inputs */
+  for (int base = 0; base < 3; base++) {
+    h_seed(seed * 31 + base);
+    size_t mn = base == 0 ? 10 : base == 1 ? 300 : 9000; for (size_t i = 0; i < mn; i++) msg[i] = "ab\n"[h_below(3)];
+    size_t en = gen_env(env, 2, -2, -2, 0, -1, 0);
+    id = sweep_alarm(msg, mn, env, en, base == 1 ? 100 : 0, id, shard, nshards);
+    if (base == 0) id = sweep_alarm2(msg, mn, env, en, 0, id, shard, nshards);
+  }
+  for (int shape = 0; shape < NSHAPES; shape++)
+    for (int variant = 0; variant < 2; variant++) {
+      size_t mn, en; int chunk;
+      gen_variant(seed, shape, variant, msg, &mn, env, &en, &chunk);
+      id = sweep_alarm(msg, mn, env, en, chunk, id, shard, nshards);
+      if (variant == 0) id = sweep_alarm2(msg, mn, env, en, chunk, id, shard, nshards);
+    }
+  /* random inputs with SIGALRM at a random call index (half of the time among the last 8 calls) */
+  for (int r = 0; r < nrandom / 4; r++, id++) {
+    if ((int)(id % nshards) != shard) continue;
+    h_seed(seed * 424243ull + r);
+    size_t mn = h_below(700); for (size_t i = 0; i < mn; i++) msg[i] = (unsigned char)h_below(256);
+    size_t en = h_below(3) ? gen_env(env, (int)h_below(6), -2, -2, 0, -1, 0) : gen_abnormal(env, (int)h_below(NSHAPES), (int)h_below(6));
+    int chunk = (int[]){0, 1, 3, 100, 255, 256, 2048}[h_below(7)];
+    long nc = ncalls_of(msg, mn, env, en, chunk, 0, 0);
+    long lo = 1; if (h_below(2) && nc - 7 > lo) lo = nc - 7;
+    flt f = { (int)(lo + h_below((uint32_t)(nc - lo + 1))), -3 };
+    one_f(msg, mn, env, en, chunk, &f, 1, 1);
+  }
+  /* (I) failures of library calls qsim does not trace: chdir (61, 62), each alloc() of qmail-queue.c (51; -16 is the
+   *     control: there is no sixth alloc), SIGBUS at an alloc() (sigbug(): 81), on a well-formed and on a truncated input */
+  for (int inp = 0; inp < 3; inp++) {
+    size_t mn, en; int chunk;
+    if (inp == 0) { h_seed(seed * 31); mn = 10; for (size_t i = 0; i < mn; i++) msg[i] = "ab\n"[h_below(3)]; en = gen_env(env, 2, -2, -2, 0, -1, 0); chunk = 0; }
+    else gen_variant(seed, inp == 1 ? 3 : 10, 1, msg, &mn, env, &en, &chunk);
+    static const int setups[] = { -31, -32, -11, -12, -13, -14, -15, -16, -22, -23, -24, -25 };
+    for (unsigned q = 0; q < sizeof setups / sizeof setups[0]; q++, id++) {
+      if ((int)(id % nshards) != shard) continue;
+      flt f = { 0, setups[q] };
+      one_f(msg, mn, env, en, chunk, &f, 1, 1);
+    }
+  }
+  g_setup = 0;
   fflush(h_out);
   return 0;
 }
